@@ -676,7 +676,7 @@ func checkG6Bytes(c g6BytesCase) *vk.Failure {
 		// last: the known weak spot
 		if r := vk.Call(func() { _ = g.GoString() }); r.Outcome != vk.Returned {
 			key := "invalid-gostring-panics"
-			if why == "empty" || why == "short-header" {
+			if rest := s[min(len(s), map[bool]int{false: 0, true: 1}[c.Directed]):]; len(rest) == 0 || (rest[0] == 126 && (len(rest) < 4 || (rest[1] == 126 && len(rest) < 8))) {
 				key = "invalid-gostring-panics-short-header"
 			}
 			return vk.Failf(key, "%s Graph(%q) is invalid (%s) and documented to behave as the null graph, but GoString ended in %v: %s", codec, quoteShort(s), why, r.Outcome, r.Text)
